@@ -495,9 +495,26 @@ pub fn main() {
         "C08" => {
             // crash injection on set_scripts / filter / download histories and on the first start,
             // then on fork histories (rollback and tip update writes)
-            let mut r = sync::run(&opts, "C08");
+            let c07_replay = opts
+                .replay
+                .as_ref()
+                .map(|p| std::fs::read_to_string(p).unwrap_or_default().lines().any(|l| l.starts_with("history ")))
+                .unwrap_or(false);
+            let mut r = if c07_replay {
+                let mut f = c07::run(&opts);
+                f.violations.retain(|v| v.signature.starts_with("C08|"));
+                f
+            } else {
+                sync::run(&opts, "C08")
+            };
             if opts.replay.is_none() {
                 r.merge(c04::run_mode(&opts, "C08"));
+                // check point finalization interrupted between its store writes (the operation
+                // sequences of C07 with `fincrash`): the start-up reads afterwards
+                let mut f = c07::run(&opts);
+                f.violations.retain(|v| v.signature.starts_with("C08|"));
+                f.disagreements.clear();
+                r.merge(f);
             }
             r
         }
